@@ -1085,6 +1085,65 @@ Example handle_offset_boundary_ex :
   skip_ref d = None /\ skip_unb d = Some 20002 /\ skip_ref (skipn 1 d) = Some 20000 /\
   fst (HandleValues false d (h_skip d) None) = inl (20002, None).
 Proof. vm_compute. repeat split; reflexivity. Qed.
+(** [members_ref] and the reference skippers on { "k" : [1], "b":"x" } *)
+Example members_ref_end_ex :
+  members_ref true ex_obj = Some ([(8, [x6b]); (17, [x62])], 22) /\ skip_unb ex_obj = Some 22 /\ skip_ref ex_obj = Some 22.
+Proof. vm_compute. repeat split; reflexivity. Qed.
+Print Assumptions uint32_offset_is_skip.
+Print Assumptions uint_offset_is_skip.
+Print Assumptions int_offset_is_skip.
+Print Assumptions skipfast_offset_unique.
+Print Assumptions run_dich.
+Print Assumptions prun_dich.
+Print Assumptions items_members.
+Print Assumptions members_ref_end.
+Print Assumptions skip_members_ref.
 Print Assumptions members_spec_err.
 Print Assumptions handle_offset_is_skip.
 Print Assumptions handle_offset_exact.
+
+(** * 6. the float reader
+    (uses FloatTok.v: ReadFloat64 as a function of the reference number token, without the
+    [exp_small] hypothesis of FpScan.v) *)
+From Rjson Require Import Fp FloatTok.
+
+(** ReadFloat64: the offset returned on success is where the reference skipper ends *)
+Theorem float_offset_is_skip : forall T data v p, ReadFloat64_m T data = Some (v, p, None) -> skip_ref data = Some p.
+Proof.
+  intros T data v p H. pose proof (ReadFloat64_tok T data) as R. cbv zeta in R.
+  destruct (number_tok (skipn (ws data) data)) as [n|] eqn:NT.
+  - rewrite R in H. destruct (ParseJSONFloatPrefix_m T _) as [[[v' pp] err]|]; [|discriminate].
+    inversion H; subst. apply skip_ref_scalar. apply number_tok_scalar. exact NT.
+  - destruct R as (p' & e & R). rewrite R in H. discriminate.
+Qed.
+
+(** conversely: on an input whose first value is a number the reference accepts with offset [p], every
+    normal result of ReadFloat64 (value, or range error) carries the offset [p] *)
+Theorem float_offset_exact : forall T data b r p, skipn (ws data) data = b :: r ->
+  isb 45 b || is_digit b = true -> skip_ref data = Some p ->
+  forall v p' e, ReadFloat64_m T data = Some (v, p', e) -> p' = p.
+Proof.
+  intros T data b r p L NB S v p' e H.
+  assert (A1 : isb 91 b = false /\ isb 123 b = false).
+  { apply orb_true_iff in NB. destruct NB as [NB|NB].
+    - apply Z.eqb_eq in NB. unfold isb. rewrite NB. auto.
+    - unfold is_digit in NB. apply andb_true_iff in NB. destruct NB as [N1 N2]. apply Z.leb_le in N1, N2.
+      unfold isb. split; apply Z.eqb_neq; lia. }
+  destruct A1 as [A1 A2].
+  destruct (skip_ref_scalar_inv data b r p L A1 A2 S) as (n & ST & ->).
+  assert (NT : number_tok (b :: r) = Some n).
+  { unfold scalar_tok in ST. rewrite NB in ST.
+    destruct (isb 34 b) eqn:Q; [|exact ST]. exfalso. apply Z.eqb_eq in Q. unfold isb, is_digit in NB. rewrite Q in NB. discriminate. }
+  pose proof (ReadFloat64_tok T data) as R. cbv zeta in R. rewrite L, NT in R. rewrite R in H.
+  destruct (ParseJSONFloatPrefix_m T _) as [[[v' pp] err]|]; [|discriminate]. inversion H. reflexivity.
+Qed.
+
+(** -1.5e3 then a comma; an exponent with six digits (outside FpScan's exp_small) *)
+Example float_offset_ex :
+  skip_ref [x2d; x31; x2e; x35; x65; x33; x2c] = Some 6 /\
+  rf_p (readFloat_m [x2d; x31; x2e; x35; x65; x33; x2c]) = 6 /\
+  skip_ref [x31; x65; x31; x30; x30; x30; x30; x30; x5d] = Some 8 /\
+  rf_p (readFloat_m [x31; x65; x31; x30; x30; x30; x30; x30; x5d]) = 8.
+Proof. vm_compute. repeat split; reflexivity. Qed.
+Print Assumptions float_offset_is_skip.
+Print Assumptions float_offset_exact.
